@@ -9,6 +9,7 @@ from ._abnf import ABNF, STATUS_NORMAL, continuous_frame, frame_buffer
 from ._exceptions import (
     WebSocketBadStatusException,
     WebSocketConnectionClosedException,
+    WebSocketException,
     WebSocketPayloadException,
     WebSocketProtocolException,
 )
@@ -508,7 +509,11 @@ class WebSocket:
             elif frame.opcode == ABNF.OPCODE_CLOSE:
                 # reply once: not when our own close frame is already out
                 if self.connected:
-                    self.send_close()
+                    try:
+                        self.send_close()
+                    except (OSError, WebSocketException):
+                        # the peer may be gone already: its close frame still counts
+                        pass
                 return frame.opcode, frame
             elif frame.opcode == ABNF.OPCODE_PING:
                 if len(frame.data) < 126:
